@@ -187,8 +187,40 @@ theorem engine_env_resolver_raised (cfg : GuardCfg) (req : Request) (expand : Py
   simp only [a1, roles_or_empty req.roles hroles, hx, env_display, truthy_bool]
   cases (isNotNone rr).truthy <;> cases cfg.strict <;> simp [env_strict, Py.get, PyVal.get, PyVal.lookup]
 
+/-! ### (D) what the sinks are handed (C11: the audit record and the metric agree with the Decision) -/
+
+/-- `labels = {"decision": d.effect}` on a Decision record -/
+theorem engine_metric_labels (d : Decision) :
+    Src.engine_metric_labels (encDecision d) = encEvent (.metricInc d.effect) := by
+  unfold Src.engine_metric_labels
+  rw [dictOf_labels]; rfl
+
+/-- `payload = {"env": env, "decision": d.effect, "allowed": d.allowed, …}` on a Decision record: the seven keys carry the env and the
+    Decision's effect, allowed flag, rule id, policy id, reason and obligations -/
+theorem engine_audit_payload (env : PyVal) (d : Decision) :
+    Src.engine_audit_payload env (encDecision d) =
+      encEvent (.audit env d.effect d.allowed d.ruleId d.policyId d.reason d.obligations) := by
+  unfold Src.engine_audit_payload
+  rw [dictOf_payload]; rfl
+
+/-- **C11, agreement clause, about the translated source: the arguments of the sink calls the model's `finishDecision` emits are
+    exactly what the translated `labels = …` / `payload = …` statements compute from the Decision the translated gate returns** —
+    same hypotheses as `engine_gate_finish` -/
+theorem engine_sinks_agree (o : Oracle) (cfg : GuardCfg) (req : Request) (env : PyVal) (raw : Raw)
+    (check : PyVal → PyVal → Option PyVal) (d ctx : PyVal) (h : Represents d raw)
+    (hc : check d ctx = checkerOutcome o cfg req raw) :
+    (finishDecision o cfg req env raw).2.map encEvent =
+      (if cfg.hasMetrics then [Src.engine_metric_labels (Src.engine_gate o check d ctx),
+                               Src.engine_metric_labels (Src.engine_gate o check d ctx)] else []) ++
+      (if cfg.hasLogger then [Src.engine_audit_payload env (Src.engine_gate o check d ctx)] else []) := by
+  rw [engine_gate_finish o cfg req env raw check d ctx h hc, finishDecision_events, engine_metric_labels, engine_audit_payload]
+  cases cfg.hasMetrics <;> cases cfg.hasLogger <;> rfl
+
 end Rbacx.Translated
 
+#print axioms Rbacx.Translated.engine_metric_labels
+#print axioms Rbacx.Translated.engine_audit_payload
+#print axioms Rbacx.Translated.engine_sinks_agree
 #print axioms Rbacx.Translated.engine_gate
 #print axioms Rbacx.Translated.engine_gate_finish
 #print axioms Rbacx.Translated.engine_gate_allowed_iff_permit
